@@ -155,6 +155,23 @@ def gen_jockey(rng):
     return sc
 
 
+def gen_ppren(rng):
+    """reneging at nodes with pre-emptive priorities, two classes: a low-priority customer whose patience ran out while
+    it was being served is pre-empted later (seeded change C02f: the reset of its reneging date removed -> a renege
+    event in the past)"""
+    while True:
+        sc = gen_renege(rng)
+        if sc["K"] == 2:
+            break
+    sc["prio"] = [0, 1]
+    for nd in sc["nodes"]:
+        nd["pp"] = rng.choice([1, 2, 3])
+    for n in range(sc["N"]):
+        sc["patS"][n][1] = samples(rng, 0, 3, 2)
+        sc["svcS"][n][1] = samples(rng, 3, 8, 2)
+    return sc
+
+
 def gen_renege(rng):
     K = rng.choice([1, 2])
     sc = gen_tandem(rng, N=rng.choice([1, 2]), K=K)
@@ -1293,6 +1310,7 @@ FAMILIES = {
     "slotpre": gen_slotpre,
     "renegesched": gen_renegesched,
     "jockey": gen_jockey,
+    "ppren": gen_ppren,
     "mix": gen_mix,
     "fault": gen_fault,
     "ps": gen_ps,
